@@ -28,6 +28,8 @@ func c09(c *Ctx) {
 	c04R5(c)
 	rulePodExist(c, "C09.R6")
 	c09R7(c)
+	// what the GC releases is owned under the key it releases with (shared rule)
+	c05R4(c)
 }
 
 func c09R1(c *Ctx) {
@@ -57,9 +59,9 @@ func c09R1(c *Ctx) {
 	// handlers hold the read lock (shared with C04.R2)
 	c04R2(c)
 	// the GC loop is the only caller and is started once per service
-	p.buildCallers()
-	callers := funcKeys(p.callers[gc.Obj])
-	c.Check(len(callers) == 1 && callers[0] == "daemon.networkService.startGarbageCollectionLoop", "C09.R1", "gcPods is driven by the periodic loop only", p.Pos(gc.Decl), gc.Key(), "only caller: startGarbageCollectionLoop", strings.Join(callers, ","))
+	c.WhoMay("C09.R1", "drive gcPods", groupCalls(p.CallsTo(nil, gc.Obj)), map[string]string{
+		"daemon.networkService.startGarbageCollectionLoop": "the periodic loop (directly, or through a callback / helper referenced only from it)",
+	})
 }
 
 // gcLoopFacts locates, in gcPods, the per-record loop, the local-pod membership
@@ -610,6 +612,12 @@ func c09R7(c *Ctx) {
 	for _, fn := range p.FuncsInPkg(daemonPkg) {
 		for _, cs := range p.CallsTo([]*FuncInfo{fn}, gc.Obj) {
 			info := fn.Info()
+			if cs.Lit == nil && isPollCallback(fn) {
+				// a named polling callback (passed as a method / function value): its own returns are the callback's
+				n++
+				c09CallbackReturns(c, fn, fn.Decl.Body, fn.Obj.Type().(*types.Signature), fn.Decl.Type)
+				continue
+			}
 			if cs.Lit == nil {
 				// called from a function body: the loop form. No return / break in the enclosing loop except on ctx.Done()
 				var loop *ast.ForStmt
@@ -652,61 +660,83 @@ func c09R7(c *Ctx) {
 				continue
 			}
 			n++
-			named := map[types.Object]bool{}
-			for i := 0; i < 2; i++ {
-				if v := sig.Results().At(i); v.Name() != "" && v.Name() != "_" {
-					named[v] = true
-				}
-			}
-			// assignments to the named results (other than the constants)
-			dirty := map[types.Object]string{}
-			ast.Inspect(cs.Lit.Body, func(k ast.Node) bool {
-				if fl, ok := k.(*ast.FuncLit); ok && fl != cs.Lit {
-					return false
-				}
-				as, ok := k.(*ast.AssignStmt)
-				if !ok {
-					return true
-				}
-				for i, l := range as.Lhs {
-					o := identObj(info, l)
-					if o == nil || !named[o] {
-						continue
-					}
-					clean := false
-					if len(as.Rhs) == len(as.Lhs) {
-						tv := info.Types[ast.Unparen(as.Rhs[i])]
-						clean = tv.IsNil() || (tv.Value != nil && tv.Value.String() == "false")
-					}
-					if !clean {
-						dirty[o] = p.Pos(as)
-					}
-				}
-				return true
-			})
-			for _, r := range declReturns(cs.Lit.Body) {
-				ok, why := true, ""
-				if len(r.Results) == 0 {
-					for o, at := range dirty {
-						ok, why = false, "bare return with "+o.Name()+" assigned at "+at
-					}
-				} else if len(r.Results) == 2 {
-					for i, x := range r.Results {
-						tv := info.Types[ast.Unparen(x)]
-						if tv.IsNil() || (tv.Value != nil && tv.Value.String() == "false") {
-							continue
-						}
-						if o := identObj(info, x); o != nil && named[o] && dirty[o] == "" {
-							continue
-						}
-						ok, why = false, fmt.Sprintf("result %d is %s", i, exprString(x))
-					}
-				} else {
-					ok, why = false, "forwarded call"
-				}
-				c.Check(ok, "C09.R7", fn.Name+": the polling callback returns (false, nil)", p.Pos(r), fn.Key(), "every return of the callback yields the constants false, nil", why)
-			}
+			c09CallbackReturns(c, fn, cs.Lit.Body, sig, cs.Lit.Type)
 		}
 	}
 	c.Floor("C09.R7", "drivers of gcPods", 1, n)
+}
+
+// isPollCallback: func(ctx) (bool, error) that is only ever referenced as a value (never called).
+func isPollCallback(fn *FuncInfo) bool {
+	sig := fn.Obj.Type().(*types.Signature)
+	if sig.Results().Len() != 2 || errResultIndex(sig) != 1 {
+		return false
+	}
+	if b, ok := sig.Results().At(0).Type().Underlying().(*types.Basic); !ok || b.Kind() != types.Bool {
+		return false
+	}
+	return true
+}
+
+// c09CallbackReturns: every return of a polling callback yields the constants (false, nil).
+func c09CallbackReturns(c *Ctx, fn *FuncInfo, body *ast.BlockStmt, sig *types.Signature, ft *ast.FuncType) {
+	p := c.P
+	info := fn.Info()
+	named := map[types.Object]bool{}
+	if ft.Results != nil {
+		for _, f := range ft.Results.List {
+			for _, nm := range f.Names {
+				if o := info.Defs[nm]; o != nil && nm.Name != "_" {
+					named[o] = true
+				}
+			}
+		}
+	}
+	dirty := map[types.Object]string{}
+	ast.Inspect(body, func(k ast.Node) bool {
+		if _, ok := k.(*ast.FuncLit); ok {
+			return false
+		}
+		as, ok := k.(*ast.AssignStmt)
+		if !ok {
+			return true
+		}
+		for i, l := range as.Lhs {
+			o := identObj(info, l)
+			if o == nil || !named[o] {
+				continue
+			}
+			clean := false
+			if len(as.Rhs) == len(as.Lhs) {
+				tv := info.Types[ast.Unparen(as.Rhs[i])]
+				clean = tv.IsNil() || (tv.Value != nil && tv.Value.String() == "false")
+			}
+			if !clean {
+				dirty[o] = p.Pos(as)
+			}
+		}
+		return true
+	})
+	for _, r := range declReturns(body) {
+		ok, why := true, ""
+		if len(r.Results) == 0 {
+			for o, at := range dirty {
+				ok, why = false, "bare return with "+o.Name()+" assigned at "+at
+			}
+		} else if len(r.Results) == 2 {
+			for i, x := range r.Results {
+				tv := info.Types[ast.Unparen(x)]
+				if tv.IsNil() || (tv.Value != nil && tv.Value.String() == "false") {
+					continue
+				}
+				if o := identObj(info, x); o != nil && named[o] && dirty[o] == "" {
+					continue
+				}
+				ok, why = false, fmt.Sprintf("result %d is %s", i, exprString(x))
+			}
+		} else {
+			ok, why = false, "forwarded call"
+		}
+		c.Check(ok, "C09.R7", fn.Name+": the polling callback returns (false, nil)", p.Pos(r), fn.Key(), "every return of the callback yields the constants false, nil", why)
+	}
 }
